@@ -326,7 +326,15 @@ Definition failed_C16_mux (b : builder) (ops : list op) (cls : list rclass) (fil
                       | Some x => u32_at (b_payload x) 16 =? sumN vdur * 1000 / 90000
                       | None => false end) ++
             clause 6 (match strict_visual_entry (b_payload (tr_entry vt)) with
-                      | Some (ew, eh) => (ew =? w) && (eh =? hh) | None => true end)
+                      | Some (ew, eh) => (ew =? w) && (eh =? hh) | None => true end) ++
+            clause 8 (match cfg_audio b, track_of HS trs with
+                      | Some a, Some at_ =>
+                          match strict_audio_entry (b_payload (tr_entry at_)) with
+                          | Some (ch, rate) =>
+                              (ch =? at_channels a) &&
+                              (rate =? match at_codec a with Opus => 48000 | _ => at_sample_rate a end)
+                          | None => true end
+                      | _, _ => true end)
         end
     end.
 
